@@ -47,3 +47,125 @@ lemma(
 t = insert_field(fields, index, value)
 return remove_field(t, index, value)
 ''', bindings={'insert_field': insert_field, 'remove_field': remove_field}, props=('C19',))
+
+# ---- _get_partition_name_and_metadata: the axis name, and the REST of the transform metadata (the caller's dict untouched) ----
+MKey = opaque('TransformMetadataKey', universe=['partition_name', 'other_key', 'third'])
+MVal = opaque('TransformMetadataValue', is_str=False, universe=['x', 'y'])
+TMeta = MapOf(MKey, MVal)
+NameAndMeta = TupleOf(MVal, TMeta)
+name_and_meta = function(
+  F + '::_get_partition_name_and_metadata', params=[('transform_metadata', TMeta)], returns=NameAndMeta,
+  raises={'ValueError': "'partition_name' not in transform_metadata"},
+  ensures=["result[0] == transform_metadata['partition_name']",
+           "forall(TransformMetadataKey, lambda k: (k in result[1]) == (k in transform_metadata and k != 'partition_name'))",
+           "forall(TransformMetadataKey, lambda k: implies(k in result[1], result[1][k] == transform_metadata[k]))",
+           'transform_metadata == old(transform_metadata)'],
+  bindings={'PARTITION_NAME': Lit('partition_name')}, props=('C19',))
+name_and_meta.dict_hint = TMeta
+
+# ---- get_partition_spec.<locals>._maybe_replicate: any array-like without sharding is replicated, anything else gets None ----
+import z3 as _z3
+from pyvc.values import SV as _SV
+NLeaf = opaque('NNXLeafValue', is_str=False)
+NPSpec = opaque('NNXPartitionSpecOrNone', is_str=False, nullable=True)
+n_has_shape = UFn('nnx_leaf_has_shape', [NLeaf], BOOL, "hasattr(x, 'shape')")
+n_replicated = UFn('nnx_replicated_pspec', [], NPSpec, 'PartitionSpec()')
+NLeaf.hasattr_hook = lambda ex, v, name: ex.call_value(n_has_shape, [v], {}) if name == 'shape' else _SV(BOOL, _z3.Bool('nnx_leaf_has_' + name))
+NLeaf.isinstance_hook = lambda ex, v, names: _z3.Bool('nnx_leaf_isinstance_' + '_'.join(sorted(names)))
+maybe_replicate = function(
+  F + '::get_partition_spec.<locals>._maybe_replicate', params=[('x', NLeaf)], returns=NPSpec,
+  requires=['nnx_replicated_pspec() is not None'],
+  ensures=['implies(nnx_leaf_has_shape(x), result == nnx_replicated_pspec())', 'implies(not nnx_leaf_has_shape(x), result is None)'],
+  bindings={'PartitionSpec': Handler('PartitionSpec', lambda ex, a, kw: ex.call_value(n_replicated, [], {}) if not a else (_ for _ in ()).throw(OutsideSubset('PartitionSpec(args)')), 'PartitionSpec() is the replicated spec'),
+            'jax.Array': TypeTag('jax.Array'), 'np.ndarray': TypeTag('np.ndarray')},
+  modifies=[], props=('C19',))
+
+# ---- get_partition_spec.<locals>.f: what replaces the value of a Variable(State) in the spec tree ---------------------------
+from specs.core_spmd import Entry as SEntry, Rules as SRules, Sharding as SSharding  # noqa: E402
+is_varlike = UFn('is_variable_or_state', [NLeaf], BOOL, 'isinstance(x, (VariableState, Variable))')
+has_sharding_a = UFn('has_sharding_attr', [NLeaf], BOOL, "hasattr(x, 'sharding')")
+has_rules_a = UFn('has_sharding_rules_attr', [NLeaf], BOOL, "hasattr(x, 'sharding_rules')")
+sharding_of = UFn('sharding_of', [NLeaf], SSharding, 'x.sharding (None is read as the empty tuple: both are falsy and take the same branch)')
+rules_of = UFn('sharding_rules_of', [NLeaf], SRules, 'x.sharding_rules')
+value_of = UFn('value_of', [NLeaf], NLeaf, 'x.value')
+ctx_rules = UFn('context_logical_axis_rules', [], SRules, 'core_spmd.get_logical_axis_rules() (stable during the call)')
+composite = UFn('composite_rules', [SRules, SRules], SRules, 'core_spmd.composite_rules (not under contract)')
+fsr = UFn('from_sharding_rules', [SSharding, SRules], SSharding, 'core_spmd.from_sharding_rules (contract: specs/core_spmd.py)')
+mrep = UFn('maybe_replicate', [NLeaf], NPSpec, '_maybe_replicate (contract above)')
+RepArg = Union('ReplaceArgument', [Ctor('APSpec', [('entries', SSharding)], pytypes=('PartitionSpec',)),
+                                   Ctor('AOpt', [('p', NPSpec)], pytypes=('NoneType', 'object'), payload='p')])
+_REPLACE = Effect('x.replace', [NLeaf, RepArg], ret=NLeaf)
+
+
+def _nleaf_isinstance(ex, v, names):
+  if names == {'variablelib.VariableState', 'variablelib.Variable'}:
+    return ex.call_value(is_varlike, [v], {}).t
+  return _z3.Bool('nnx_leaf_isinstance_' + '_'.join(sorted(names)))
+
+
+def _nleaf_hasattr(ex, v, name):
+  if name == 'shape':
+    return ex.call_value(n_has_shape, [v], {})
+  if name == 'sharding':
+    return ex.call_value(has_sharding_a, [v], {})
+  if name == 'sharding_rules':
+    return ex.call_value(has_rules_a, [v], {})
+  return _SV(BOOL, _z3.Bool('nnx_leaf_has_' + name))
+
+
+NLeaf.isinstance_hook = _nleaf_isinstance
+NLeaf.hasattr_hook = _nleaf_hasattr
+NLeaf.attr_hooks = {}
+NLeaf.attrs['value'] = (NLeaf, None)
+NLeaf.methods = {'replace': lambda ex, v, a, kw: ex.call_value(_REPLACE, [v, a[0]], {})}
+
+
+def _getattr3(ex, a, kw):
+  """getattr(x, 'sharding_rules', ()): the attribute if present, else the default"""
+  if len(a) == 3 and getattr(a[1], 'py', None) == 'sharding_rules':
+    v = ex.deref(a[0])
+    has = ex.call_value(has_rules_a, [v], {}).t
+    r = ex.call_value(rules_of, [v], {})
+    empty = ex.call_value(empty_rules, [], {})      # the default `()`: the one empty rule tuple
+    return _SV(SRules, _z3.If(has, r.t, empty.t))
+  if len(a) == 2 and getattr(a[1], 'py', None):
+    return ex.getattr_(a[0], a[1].py)
+  raise OutsideSubset('getattr')
+
+
+def _sharding_attr(ex, v):
+  return ex.call_value(sharding_of, [v], {})
+
+
+def _pspec_star(ex, a, kw):
+  star = [x[1] for x in a if isinstance(x, tuple) and not isinstance(x, PyTuple) and len(x) == 2 and x[0] == '*']
+  if len(star) != 1 or len(a) != 1:
+    raise OutsideSubset('PartitionSpec(*entries) expected')
+  return _SV(RepArg, RepArg.mk('APSpec', ex.coerce(star[0], SSharding).t))
+
+
+SHARDED = '(has_sharding_attr(x) and len(x.sharding) > 0)'
+RULED = '(len(context_logical_axis_rules()) > 0 or has_sharding_rules_attr(x))'
+LOCAL = '(sharding_rules_of(x) if has_sharding_rules_attr(x) else ())'
+gps_f = function(
+  F + '::get_partition_spec.<locals>.f', params=[('x', NLeaf)], returns=ANY,
+  ensures=[
+    # not a Variable / VariableState: replicated if it is array-like, None otherwise
+    "implies(not is_variable_or_state(x), ncalls('x.replace') == 0 and result == maybe_replicate(x))",
+    "implies(is_variable_or_state(x), ncalls('x.replace') == 1 and call_args('x.replace')[0] == x)",
+    # sharded and some logical rules are in force: the names are translated by the context rules combined with the variable's own rules
+    f"implies(is_variable_or_state(x) and {SHARDED} and {RULED}, is_(call_args('x.replace')[1], 'APSpec') and "
+    f"call_args('x.replace')[1].entries == from_sharding_rules(x.sharding, composite_rules(context_logical_axis_rules(), sharding_rules_of(x) if has_sharding_rules_attr(x) else empty_rules())))",
+    # sharded, no rules anywhere: the names are mesh axes already
+    f"implies(is_variable_or_state(x) and {SHARDED} and not {RULED}, is_(call_args('x.replace')[1], 'APSpec') and call_args('x.replace')[1].entries == x.sharding)",
+    # no sharding: replicated / None according to the value
+    f"implies(is_variable_or_state(x) and not {SHARDED}, is_(call_args('x.replace')[1], 'AOpt') and call_args('x.replace')[1].p == maybe_replicate(x.value))",
+  ],
+  bindings={'variablelib.VariableState': TypeTag('variablelib.VariableState'), 'variablelib.Variable': TypeTag('variablelib.Variable'),
+            'core_spmd.get_logical_axis_rules': ctx_rules, 'core_spmd.composite_rules': composite, 'core_spmd.from_sharding_rules': fsr,
+            '_maybe_replicate': mrep, 'getattr': Handler('getattr', _getattr3, "getattr(x, 'sharding_rules', ())"),
+            'PartitionSpec': Handler('PartitionSpec', _pspec_star, 'PartitionSpec(*entries): an injective constructor of the entries')},
+  props=('C19', 'C18'))
+empty_rules = UFn('empty_rules', [], SRules, 'the empty rule tuple ()')
+gps_f.assume_axioms = ['len(empty_rules()) == 0']
+NLeaf.attrs['sharding'] = (SSharding, None)
